@@ -35,10 +35,10 @@ func init() {
 				Blocks:   16,
 				Procs:    16,
 				Rule: "case = (Left, Right, n, file info). Lines come from an adversarial alphabet ('', lines starting with - + < > @ space \\\\, '---', '+++', 'diff ', '***', '***************', change-command and hunk-header look-alikes, lines ending in CR, non-ASCII); n in 0..4; empty files, single-line and empty sides. Exhaustive over alphabet 2 x length <= 5 x n in 0..3; random pairs up to 40 lines. " +
-					"For New and for New.AddContext(n).Unify(): Normal/Unified/Context text is produced; the text is parsed by independent reference parsers that count lines by the headers (published format rules) and must describe the original changes at the original ranges; strict reference appliers (no fuzz, no offset, left AND right line numbers checked) must turn Left into Right; mdiff.Read/ReadUnified/ReadGitPatch must return the reference parse (chunk for chunk; one chunk per change command for normal), re-format to identical bytes, and preserve file names and default-format timestamps; parsed patches are kept and verified again after later reads; Diff.Format must equal the format function's output also right after a Format call into a writer that failed. " +
+					"For New and for New.AddContext(n).Unify(): Normal/Unified/Context text is produced; the text is parsed by independent reference parsers that count lines by the headers (published format rules) and must describe the original changes at the original ranges; strict reference appliers (no fuzz, no offset, left AND right line numbers checked) must turn Left into Right; mdiff.Read/ReadUnified/ReadGitPatch must return the reference parse (chunk for chunk; one chunk per change command for normal), re-format to identical bytes, and preserve file names and default-format timestamps; the same changes moved down to line numbers around every power of ten up to 10^18 and around 2^31, 2^32, 2^53, 2^62 (really built and applied up to a million lines in front, parsed and read back beyond); parsed patches are kept and verified again after later reads; Diff.Format must equal the format function's output also right after a Format call into a writer that failed. " +
 					"A sample of cases (CR-free alphabet) is also applied with GNU patch (-n/-u/-c) and, for a smaller sample, GNU diff output (normal and -U n) is fed to the readers. " +
 					"A unified read failure is attributed to known finding F5 iff the text has an omitted count and the parse equals the reference parse with End=Start on exactly the omitted-count sides. distinct = hash(Left, Right, n); non-trivial = the diff has a hunk with an empty or single-line side",
-				Required:     []string{"cases", "unified_roundtrips", "normal_roundtrips", "git_roundtrips", "ref_apply_normal", "ref_apply_unified", "ref_apply_context", "empty_range_hunks", "single_line_side_hunks", "fileinfo_roundtrips", "gnu_patch_runs", "gnu_diff_runs", "kept_patches_rechecked", "format_after_failed_write"},
+				Required:     []string{"cases", "unified_roundtrips", "normal_roundtrips", "git_roundtrips", "ref_apply_normal", "ref_apply_unified", "ref_apply_context", "empty_range_hunks", "single_line_side_hunks", "fileinfo_roundtrips", "gnu_patch_runs", "gnu_diff_runs", "kept_patches_rechecked", "format_after_failed_write", "large_line_number_cases"},
 				Exhaustive:   true,
 				Assumptions:  []string{"reference parsers/appliers written from the GNU diffutils manual's format descriptions", "GNU patch 2.7.x and GNU diff 3.x as installed in this image", "an omitted count means 1 (unified), an empty unified range s,0 sits after line s"},
 				CoverPkgs:    []string{"github.com/creachadair/mds/mdiff"},
@@ -53,6 +53,7 @@ var c14alphabet = []string{
 	"a", "b", "c", "", "x y", " lead", "-dash", "+plus", "<lt", ">gt", "< lt2", "> gt2", "@at", "@@ -1 +1 @@", "--- x", "+++ y", "---", "diff x",
 	"*** s", "***************", "*** 1,2 ****", "--- 1 ----", "1a2", "2,3c4", "5d4", "\\ back", "\ttab", "ü", "cr\r", "\r", "- ", "+ ", "! bang", "  two",
 	// pairs of different lines that collide under common 32-bit hashes (CRC-32, FNV-1, FNV-1a, Java hashCode)
+	"\\ No newline at end of file", "diff --git a/x b/x", "index 83db48f..bf269f4 100644", "Binary files a and b differ", "Only in x: y", "\ufeffbom", "trail ", "%s%d", "new file mode 100644",
 	"plumless", "buckeroo", "costarring", "liquid", "declinate", "macallums", "Aa", "BB",
 }
 
@@ -587,6 +588,9 @@ type c14case struct {
 	n     int
 	what  string // which diff (New / AddContext(n).Unify())
 	data  map[string]any
+	// noApply: the chunks sit at line numbers of a file too large to build;
+	// the texts are parsed and read back but not applied
+	noApply bool
 }
 
 func (k *c14case) fail(format string, args ...any) {
@@ -652,8 +656,11 @@ func (k *c14case) checkUnified(cs []*mdiff.Chunk, fi *mdiff.FileInfo) (text stri
 		}
 	}
 	// strict reference applier
-	got, prob := applyUnifiedRef(hunks, k.left)
-	k.c.Add("ref_apply_unified", 1)
+	got, prob := k.right, ""
+	if !k.noApply {
+		got, prob = applyUnifiedRef(hunks, k.left)
+		k.c.Add("ref_apply_unified", 1)
+	}
 	if prob != "" || !equalStrings(got, k.right) {
 		k.fail("unified text applied to Left by the published rules: %s (result %q)", prob, got)
 		return text
@@ -731,8 +738,11 @@ func (k *c14case) checkNormal(cs []*mdiff.Chunk) (text string) {
 		k.fail("normal text describes %s, the diff has %s", chunksString(normalChunks(cmds)), chunksString(want))
 		return text
 	}
-	got, prob := applyNormalRef(cmds, k.left)
-	k.c.Add("ref_apply_normal", 1)
+	got, prob := k.right, ""
+	if !k.noApply {
+		got, prob = applyNormalRef(cmds, k.left)
+		k.c.Add("ref_apply_normal", 1)
+	}
 	if prob != "" || !equalStrings(got, k.right) {
 		k.fail("normal text applied to Left by the published rules: %s (result %q)", prob, got)
 		return text
@@ -765,6 +775,9 @@ func (k *c14case) checkContext(cs []*mdiff.Chunk, fi *mdiff.FileInfo) (text stri
 	text = buf.String()
 	k.data["context_text"] = fw.Q(text)
 	if len(cs) == 0 {
+		return text
+	}
+	if k.noApply {
 		return text
 	}
 	got, prob := applyContextRef(splitLines(text), k.left)
@@ -856,6 +869,50 @@ func c14one(c *fw.Ctx, left, right []string, n int, fi *mdiff.FileInfo) (texts m
 		c.FailKind("panic", base, "panic: %v\n%s", pv, stack)
 	}
 	return texts, nontrivial
+}
+
+// c14shifted: the same changes at large line numbers. A small diff is
+// computed, then every chunk is moved down by delta lines, as in the diff of a
+// file that has delta unchanged lines in front. For delta up to about a
+// million the file is really built (so the texts are also applied); beyond,
+// the texts are parsed by the reference parsers and read back only. The line
+// numbers cross every power of ten up to 10^18 and 2^31, 2^32, 2^53.
+func c14shifted(c *fw.Ctx, r *rand.Rand, delta int) {
+	left, right := c14randomPair(r, 12, true)
+	if equalStrings(left, right) {
+		right = append(right, "tail")
+	}
+	n := r.IntN(4)
+	d := mdiff.New(left, right)
+	if n > 0 {
+		d.AddContext(n).Unify()
+	}
+	cs := make([]*mdiff.Chunk, len(d.Chunks))
+	for i, ch := range d.Chunks {
+		cs[i] = &mdiff.Chunk{Edits: ch.Edits, LStart: ch.LStart + delta, LEnd: ch.LEnd + delta, RStart: ch.RStart + delta, REnd: ch.REnd + delta}
+	}
+	data := map[string]any{"left": fw.Qs(left), "right": fw.Qs(right), "n": n, "unchanged_lines_in_front": delta}
+	k := &c14case{c: c, n: n, what: fmt.Sprintf("chunks moved down by %d lines", delta), data: data, noApply: true}
+	if delta <= 1100000 {
+		filler := make([]string, delta, delta+len(left)+len(right))
+		for i := range filler {
+			filler[i] = "same"
+		}
+		k.left = append(append([]string(nil), filler...), left...)
+		k.right = append(filler, right...)
+		k.noApply = false
+	}
+	ok, pv, stack := fw.Try(func() {
+		fi := c14fileInfo(r)
+		k.checkUnified(cs, fi)
+		k.checkNormal(cs)
+		k.checkContext(cs, fi)
+	})
+	if !ok {
+		c.FailKind("panic", data, "panic: %v\n%s", pv, stack)
+	}
+	c.Add("large_line_number_cases", 1)
+	c.Step()
 }
 
 // ---------------------------------------------------------------------------
@@ -1224,6 +1281,17 @@ func runC14(c *fw.Ctx) {
 		}
 		if k%5 == 0 {
 			c14git(c, r)
+		}
+		if k%40 == 7 {
+			pow := 1
+			for i := 1 + (k/40)%18; i > 0; i-- {
+				pow *= 10
+			}
+			base := []int{pow, 1 << 31, 1 << 32, 1 << 53, 1 << 62, pow}[(k/40+c.Block)%6]
+			if k%80 == 7 && base > 1000000 {
+				base = []int{100, 1000, 10000, 100000, 1000000}[(k/80)%5] // files that are really built
+			}
+			c14shifted(c, r, max(0, base-12+r.IntN(14)))
 		}
 	}
 }
